@@ -319,7 +319,11 @@ impl<K: IK> Scenario for Sc<K> {
             (Some(k), false) => format!("need={} free={} thr={}", k, free, if free < k { "oom" } else { "ok" }),
             _ => format!("need=? free={}", free),
         };
-        let key = ctx.case.rsplit_once("-c").map(|x| x.0.to_string()).unwrap_or_default();
+        // monotonicity is a statement about ONE state under two capacities: the script before the
+        // import may itself have failed under the smaller capacity (then fewer nodes are alive and
+        // the import fits although it does not under the larger one), so the scenario key carries
+        // the state the import starts from (slots in use, handles and their diagrams)
+        let key = format!("{}|{}|{:?}", ctx.case.rsplit_once("-c").map(|x| x.0.to_string()).unwrap_or_default(), before, snap);
         let first = !self.first_import_done;
         self.first_import_done = true;
         match res {
@@ -356,7 +360,7 @@ impl<K: IK> Scenario for Sc<K> {
                 if first {
                     if let Some(&c) = self.min_ok.get(&key) {
                         if c < self.cap {
-                            ctx.fail("threshold-monotone", &format!("scenario {}: import succeeds under capacity {} but fails under {}", key, c, self.cap));
+                            ctx.fail("threshold-monotone", &format!("scenario {}: from the same state the import succeeds under capacity {} but fails under {}", key.split('|').next().unwrap_or(""), c, self.cap));
                         }
                     }
                 }
